@@ -16,6 +16,7 @@ Input: str (callers map bytes 1:1 with latin-1).  Output: list of tokens
 Adjacent character tokens are merged; duplicate attributes are dropped as the spec says.
 `tokenize(s).errors` lists the parse-error codes met.  No twisted imports; see selftest().
 """
+import re
 from html.entities import html5 as _ENTITIES
 
 WS = "\t\n\f "
@@ -32,6 +33,14 @@ _C1 = {
     0x96: 0x2013, 0x97: 0x2014, 0x98: 0x02DC, 0x99: 0x2122, 0x9A: 0x0161, 0x9B: 0x203A,
     0x9C: 0x0153, 0x9E: 0x017E, 0x9F: 0x0178,
 }
+
+
+# Bulk consumption of runs of characters that a state merely appends (pure optimisation for large
+# documents: the per-character rules below are unchanged and decide every other character).
+_PLAIN_DATA = re.compile("[^&<\\0]+")
+_PLAIN_COMMENT = re.compile("[^<\\-\\0]+")
+_PLAIN_DQ = re.compile("[^\"&\\0]+")
+_PLAIN_SQ = re.compile("[^'&\\0]+")
 
 
 class Tokens(list):
@@ -103,6 +112,11 @@ def tokenize(s, cdata_allowed=False):
         if state == "data":
             if c is None:
                 break
+            m = _PLAIN_DATA.match(s, i)
+            if m:
+                text.append(m.group())
+                i = m.end()
+                continue
             i += 1
             if c == "&":
                 ret = "data"
@@ -234,6 +248,11 @@ def tokenize(s, cdata_allowed=False):
             if c is None:
                 err("eof-in-tag")
                 break
+            m = (_PLAIN_DQ if state == "attrvalue-dq" else _PLAIN_SQ).match(s, i)
+            if m:
+                tag[2][-1][1].append(m.group())
+                i = m.end()
+                continue
             i += 1
             if c == ('"' if state == "attrvalue-dq" else "'"):
                 state = "afterattrvalue"
@@ -362,6 +381,11 @@ def tokenize(s, cdata_allowed=False):
                 err("eof-in-comment")
                 emit(("comment", "".join(comment)))
                 break
+            m = _PLAIN_COMMENT.match(s, i)
+            if m:
+                comment.append(m.group())
+                i = m.end()
+                continue
             i += 1
             if c == "<":
                 comment.append(c)
